@@ -149,8 +149,20 @@ def Ctx.notifySubChangeP2P (c : Ctx) (t : Topic) (uid actor : Uid) (oldWant oldG
   let acs := if dWant ≠ "" ∨ dGiven ≠ "" then s!" dacs={if dWant.isEmpty then "_" else dWant}/{if dGiven.isEmpty then "_" else dGiven}" else ""
   let act := if actor = uid then "" else s!" act={actor}"
   let c := c.presOnline t { what := "acs", src := uid, extra := acs ++ act, filterIn := modeCSharer, excludeUser := uid, skipSid := skip }
-  if unsub then c
-  else c.presDirect t { what := "acs", src := "", extra := acs, singleUser := uid, skipSid := skip }
+  let c := if betterThan newWant newGiven ∨ oldWant = modeNone then
+      c.presSubsOffline t "acs" acs actor uid modeCSharer 0 { what := "acs", filterIn := modeCSharer, excludeUser := uid } skip true
+    else c
+  let uid2 := t.origFor uid
+  if unsub then
+    -- the user's other sessions learn that the subscription is gone; the other participant sees the user offline
+    let c := c.presSingleOffline t uid (newWant &&& newGiven) "gone" "" "" "" skip false
+    c.presSingleOfflineOffline uid2 uid "off" "" "" "" ""
+  else
+    let newM := newWant &&& newGiven
+    let oldM := oldWant &&& oldGiven
+    let c := if !isPresencer newM ∧ isPresencer oldM then c.presSingleOfflineOffline uid uid2 "off+dis" "" "" "" "" else c
+    let c := c.presDirect t { what := "acs", src := "", extra := acs, singleUser := uid, skipSid := skip }
+    c.presSingleOffline t uid newM "acs" acs actor uid skip true
 
 /-! ### thisUserSub, p2p topic (topic.go:1466-1831) -/
 
@@ -206,6 +218,8 @@ def Ctx.thisUserSubP2P (c : Ctx) (t : Topic) (a : Actor) (want : String) (priv :
   match r with
   | (c, none) => (c, t, none)
   | (c, some (ud, oldWant, oldGiven)) =>
+    let c := if isPresencer (oldWant &&& oldGiven) ∧ !isPresencer (eff ud) then
+        c.presSingleOffline t a.uid (eff ud) "off+dis" "" "" "" "" false else c
     let t := t.setPud a.uid ud
     let changed := oldWant ≠ ud.want ∨ oldGiven ≠ ud.given
     let c := if changed then c.notifySubChangeP2P t a.uid a.uid oldWant oldGiven ud.want ud.given a.sid else c
@@ -292,7 +306,7 @@ def Ctx.anotherUserSubP2P (c : Ctx) (t : Topic) (a : Actor) (target : Uid) (mode
 /-! ### {sub} -/
 
 def Ctx.subscriptionReplyP2P (c : Ctx) (t : Topic) (a : Actor) (mode : String) (priv : PrivArg) (newsub : Bool)
-    (userGiven : Bool) : Ctx × Topic :=
+    (userGiven : Bool) (created : Bool := false) : Ctx × Topic :=
   let tn := t.name
   let newsub := newsub || (match t.pud? a.uid with | none => true | some p => p.deleted)
   if userGiven then (c.emit a.sid (ctrl 400 tn), t) else
@@ -319,6 +333,20 @@ def Ctx.subscriptionReplyP2P (c : Ctx) (t : Topic) (a : Actor) (mode : String) (
     let c := if res.modeChanged.isSome ∧ newsub then
         { c with pushes := c.pushes ++ [s!"push what=sub topic={a.uid} seq={t.lastId} to=\{{t.peer a.uid}} chan=-"] }
       else c
+    -- … and the presence part of it, all of it on the two users' `me` topics
+    let c := match res.modeChanged with
+      | none => c
+      | some (w, g) =>
+        let uid2 := t.peer a.uid
+        let pud2 := t.pud uid2
+        let mode2 := if pud2.deleted then modeInvalid else eff pud2
+        let c := if created then
+            c.presSingleOffline t uid2 mode2 "acs" s!" dacs={showMode pud2.want}/{showMode pud2.given}" a.uid "" "" false else c
+        if newsub then
+          let c := c.presSingleOffline t a.uid (w &&& g) "?none+en" "" "" "" "" false
+          let c := c.presSingleOffline t uid2 mode2 (if isPresencer mode2 then "?unkn+en" else "?unkn") "" "" "" "" false
+          c.presSingleOffline t a.uid (w &&& g) "acs" s!" dacs={showMode w}/{showMode g}" a.uid "" a.sid false
+        else c
     (c, t)
 
 /-- {sub topic="usrPEER"} -/
@@ -336,7 +364,7 @@ def Ctx.opSubP2P (c : Ctx) (a : Actor) (peer : Uid) (mode : String) (priv : Priv
     match r with
     | none => c
     | some i =>
-      let (c, t) := c.subscriptionReplyP2P i.t a mode priv i.newsub (userArg ≠ "")
+      let (c, t) := c.subscriptionReplyP2P i.t a mode priv i.newsub (userArg ≠ "") i.created
       c.putLive t
 
 /-! ### {leave} -/
@@ -417,7 +445,11 @@ def Ctx.opNoteP2P (c : Ctx) (a : Actor) (peer : Uid) (what : String) (seqArg : I
       match c.noteStoreP2P tn a.uid read recv with
       | (c, false) => c
       | (c, true) =>
+        let c := if read > 0 then c.presSingleOffline t a.uid (eff pud) "read" s!" seq={read}" "" "" a.sid true
+          else if recv > 0 then c.presSingleOffline t a.uid (eff pud) "recv" s!" seq={recv}" "" "" a.sid true
+          else c
         let t := if (if read > 0 then read else recv) > 0 then t.setPud a.uid pud' else t
+        let c := c.infoSubsOffline t a.uid what seqArg a.sid
         let c := c.fanoutInfo t a.sid a.uid what s!"info {tn} from={a.uid} what={what} seq={seqArg}"
         c.putLive t
 
@@ -552,6 +584,7 @@ def Ctx.opSetDescP2P (c : Ctx) (a : Actor) (peer : Uid) (o : SetDescOpts) : Ctx 
     let (c, ok) := c.subsUpdate tn a.uid (fun s => { s with priv := npriv })
     if !ok then c.emit a.sid (ctrl 500 tn) else
     let t := t.setPud a.uid { t.pud a.uid with priv := npriv }
+    let c := c.presSingleOffline t a.uid (eff (t.pud a.uid)) "upd" "" "" "" a.sid false
     (c.emit a.sid (ctrl 200 tn)).putLive t
 
 /-! ### {del} -/
@@ -586,13 +619,20 @@ def Ctx.opDelTopicP2P (c : Ctx) (a : Actor) (peer : Uid) (hard : Bool) : Ctx :=
           else match w.row? tn with
             | some r => w.setRow { r with state := 20, subs := r.subs.map (fun s => { s with deleted := true }) }
             | none => w)
-        if !ok then c.emit a.sid (ctrl 500 tn) else c.emit a.sid (ctrl 200 tn)
+        if !ok then c.emit a.sid (ctrl 500 tn) else
+        (c.presSingleOfflineOffline a.uid peer "gone" "" "" "" a.sid).emit a.sid (ctrl 200 tn)
       else
         let (c, r) := c.subsDelete tn a.uid
         match r with
         | none => c.emit a.sid (ctrl 500 tn)
         | some false => c.emit a.sid (ctrl 304 tn)
-        | some true => c.emit a.sid (ctrl 200 tn)
+        | some true =>
+          let c := c.presSingleOfflineOffline a.uid peer "gone" "" "" "" a.sid
+          -- two subscriptions were there: the requester's `me` stops telling the other user; the other user sees the requester offline
+          let c := if subs.length = 2 then
+              (c.presSingleOfflineOffline a.uid peer "?none+rem" "" "" "" "").presSingleOfflineOffline peer a.uid "off" "" "" "" ""
+            else c
+          c.emit a.sid (ctrl 200 tn)
   | some t =>
     if t.subsCountP2P < 2 then
       -- the last participant (or one who has already left) deletes the topic: always for good
